@@ -43,6 +43,8 @@ static void oom_gen(Rng &r, Plan &p, Tier tier, uint64_t index)
 	(void)index;
 	p.cfg["prov"] = Val((int64_t)(r.chance(1, 3) ? 1 : 0));
 	p.cfg["from"] = Val((int64_t)(tier == THOROUGH && r.chance(1, 3) ? 1 : 0)); // every request from k on fails
+	if (tier == THOROUGH && !p.C("from") && r.chance(1, 3))
+		p.cfg["pair"] = Val(r.range(1, 6)); // pairs of faults: request k and request k+delta fail
 	uint64_t uid = 1;
 	auto push = [&](Step s) {
 		s.uid = uid++;
@@ -343,8 +345,11 @@ static const jwk_item_t *slot_item(OomState &st, int slot)
 	return jwks_item_get(st.sets[slot], 0);
 }
 
+static int64_t g_pair_delta; // thorough tier: a second request, this far behind the first, fails too
+
 static OpRes run_op(Scenario &sc, OomState &st, const Step &s, int64_t fail_at, bool fail_from)
 {
+	int64_t fail_at2 = fail_at > 0 && g_pair_delta > 0 ? fail_at + g_pair_delta : 0;
 	OpRes r;
 	const std::string &op = s.op;
 	sim_entropy_point(mix64(sc.plan->rng, s.uid));
@@ -372,7 +377,7 @@ static OpRes run_op(Scenario &sc, OomState &st, const Step &s, int64_t fail_at, 
 			}
 		}
 		{
-			Armed a(fail_at, fail_from);
+			Armed a(fail_at, fail_from, fail_at2);
 			switch (via) {
 			case 0:
 				set = into ? jwks_load(into, doc.c_str()) : jwks_create(doc.c_str());
@@ -418,7 +423,7 @@ static OpRes run_op(Scenario &sc, OomState &st, const Step &s, int64_t fail_at, 
 		}
 		int ret = 0;
 		{
-			Armed a(fail_at, fail_from);
+			Armed a(fail_at, fail_from, fail_at2);
 			switch (s.I("what")) {
 			case 0:
 				ret = jwks_item_free(set, 0);
@@ -458,7 +463,7 @@ static OpRes run_op(Scenario &sc, OomState &st, const Step &s, int64_t fail_at, 
 		int i = (int)(s.I(bld ? "b" : "c") & 1);
 		void *p;
 		{
-			Armed a(fail_at, fail_from);
+			Armed a(fail_at, fail_from, fail_at2);
 			if (bld)
 				p = jwt_builder_new();
 			else
@@ -494,7 +499,7 @@ static OpRes run_op(Scenario &sc, OomState &st, const Step &s, int64_t fail_at, 
 			return r;
 		}
 		{
-			Armed a(fail_at, fail_from);
+			Armed a(fail_at, fail_from, fail_at2);
 			ret = bld ? jwt_builder_setkey(st.b[i], alg, it) : jwt_checker_setkey(st.c[i], alg, it);
 			r.reqs = a.reqs();
 			r.fired = a.fired() > 0;
@@ -517,7 +522,7 @@ static OpRes run_op(Scenario &sc, OomState &st, const Step &s, int64_t fail_at, 
 		int rc;
 		static const char *strs[] = {"short", "a-string-longer-than-sixteen-bytes-0123456789", "", "\xc3\xbc"};
 		static const char *jsons[] = {"{\"x\":[1,2,{\"y\":\"a-string-longer-than-sixteen-bytes\"}]}", "[1,2,3]", "{\"a\":1,\"b\":\"two\"}", "{}"};
-		Armed a(fail_at, fail_from);
+		Armed a(fail_at, fail_from, fail_at2);
 		if (act == 0) {
 			if (type == 0)
 				jv_set_int(&jv, name, 1000 + val, (int)s.I("replace"));
@@ -563,7 +568,7 @@ static OpRes run_op(Scenario &sc, OomState &st, const Step &s, int64_t fail_at, 
 			r.res = "skipped";
 			return r;
 		}
-		Armed a(fail_at, fail_from);
+		Armed a(fail_at, fail_from, fail_at2);
 		jwt_builder_enable_iat(st.b[i], (int)s.I("iat"));
 		int r1 = jwt_builder_time_offset(st.b[i], JWT_CLAIM_EXP, (time_t)s.I("exp"));
 		int r2 = jwt_builder_time_offset(st.b[i], JWT_CLAIM_NBF, (time_t)s.I("nbf"));
@@ -586,7 +591,7 @@ static OpRes run_op(Scenario &sc, OomState &st, const Step &s, int64_t fail_at, 
 			cb->alg = jwks_item_alg(cb->key);
 		int ret;
 		{
-			Armed a(fail_at, fail_from);
+			Armed a(fail_at, fail_from, fail_at2);
 			ret = bld ? jwt_builder_setcb(st.b[i], oom_cb, cb) : jwt_checker_setcb(st.c[i], oom_cb, cb);
 			r.reqs = a.reqs();
 			r.fired = a.fired() > 0;
@@ -599,7 +604,7 @@ static OpRes run_op(Scenario &sc, OomState &st, const Step &s, int64_t fail_at, 
 			return r;
 		}
 		int ret;
-		Armed a(fail_at, fail_from);
+		Armed a(fail_at, fail_from, fail_at2);
 		switch (s.I("what")) {
 		case 0:
 			ret = jwt_checker_claim_set(st.c[i], JWT_CLAIM_ISS, "an-issuer-name-longer-than-sixteen-bytes");
@@ -625,7 +630,7 @@ static OpRes run_op(Scenario &sc, OomState &st, const Step &s, int64_t fail_at, 
 			return r;
 		}
 		Ctx dummy;
-		GenerateOut go = lib_generate(dummy, st.b[i], false, fail_at, fail_from);
+		GenerateOut go = lib_generate(dummy, st.b[i], false, fail_at, fail_from, fail_at2);
 		r.reqs = go.alloc_reqs;
 		r.fired = go.faults_fired > 0;
 		int slot = st.bkey[i];
@@ -683,7 +688,7 @@ static OpRes run_op(Scenario &sc, OomState &st, const Step &s, int64_t fail_at, 
 			tok = "garbage.without.meaning";
 		}
 		Ctx dummy;
-		VerifyOut vo = lib_verify(dummy, st.c[i], tok.c_str(), false, fail_at, fail_from);
+		VerifyOut vo = lib_verify(dummy, st.c[i], tok.c_str(), false, fail_at, fail_from, fail_at2);
 		r.reqs = vo.alloc_reqs;
 		r.fired = vo.faults_fired > 0;
 		r.accepted = vo.ret == 0;
@@ -730,7 +735,7 @@ static bool jansson_alone_reproduces(const ParseRecord &pr)
 	json_t *t0 = real(pr.bytes.data(), pr.bytes.size(), pr.flags, NULL);
 	json_t *t1;
 	{
-		Armed a((int64_t)pr.k_rel, false);
+		Armed a((int64_t)pr.k_rel, pr.from, pr.delta ? (int64_t)(pr.k_rel + pr.delta) : 0);
 		t1 = real(pr.bytes.data(), pr.bytes.size(), pr.flags, NULL);
 	}
 	bool differs = t1 && t0 && !json_equal(t0, t1);
@@ -756,7 +761,7 @@ static bool jansson_alone_reproduces_dump(const DumpRecord &dr)
 		return false;
 	char *d;
 	{
-		Armed a((int64_t)dr.k_rel, false);
+		Armed a((int64_t)dr.k_rel, dr.from, dr.delta ? (int64_t)(dr.k_rel + dr.delta) : 0);
 		d = rdump(t, dr.flags);
 	}
 	bool differs = d && dr.text != d;
@@ -772,6 +777,7 @@ static void oom_exec(Ctx &ctx)
 	sc.plan = &plan;
 	sc.prov = (int)plan.C("prov");
 	bool fail_from = plan.C("from") != 0;
+	g_pair_delta = plan.C("pair");
 	prepare_keys(plan, sc.keys, sc.docs);
 	set_provider(sc.prov);
 	ctx.nontrivial = true;
@@ -883,10 +889,11 @@ static void oom_exec(Ctx &ctx)
 				ctx.count("oom:blocks_leaked_under_fault", g_alloc.live_blocks());
 			}
 			ctx.count("oom:faulted_executions");
-			ctx.sig(strf("C17|%s|k%llu|p%d|%d", plan.steps[j].op.c_str(), (unsigned long long)k, sc.prov, (int)fail_from));
+			ctx.sig(strf("C17|%s|k%llu|p%d|%d|%lld", plan.steps[j].op.c_str(), (unsigned long long)k, sc.prov, (int)fail_from, (long long)g_pair_delta));
 		}
 	}
 	g_alloc.reset_run();
+	g_pair_delta = 0;
 	set_provider(PROV_OPENSSL);
 	sim_scratch_cleanup();
 }
